@@ -16,7 +16,7 @@ from ..spec import MARKERS
 
 LEVEL = "exploration"
 SHARDS = {"quick": 1, "thorough": 16}
-REQUIRED = ("prefix_cases", "suffix_cases", "failing_cases_shifted", "values_compared", "end_offsets_compared",
+REQUIRED = ("families_ending_in_an_odd_width_int", "prefix_cases", "suffix_cases", "failing_cases_shifted", "values_compared", "end_offsets_compared",
             "raw_slice_equivalence", "hostile_pre_with_delimiters", "nested_families", "moves_under_offset",
             "inputs_of_declarations_with_a_position_before_the_wrapper")
 MIN_NONTRIVIAL = 150
@@ -185,8 +185,19 @@ def run(run):
     overlap = dict(profile, p_move=0.5, p_backward_at=0.75, moves={"at": 5, "shift": 5, "aligned": 1}, p_rep=0.04, p_opt=0.03, p_move_first=0.0,
                    kinds={"int": 60, "data": 28, "bits": 4, "ref": 7, "sel": 0, "em": 1}, max_fields=5, int_widths=[1, 1, 2, 2, 4, 3])
     import itertools
+    def ends_in_an_odd_width_int(fam):
+        # the parsed region ends in an integer that has no primitive width (decoded by the library's own loop, where a
+        # "one more byte is there" shortcut would live): its value must not depend on whether bytes follow
+        root = fam["decls"][fam["root"]]["fields"]
+        f = root[-1] if root else None
+        return bool(f) and f["t"] == "int" and f["n"] in (3, 5, 6, 7) and not any(k in f for k in ("rep", "opt", "move", "lost_move"))
+    tail_int = dict(profile, int_widths=[3, 3, 5, 6, 7, 1, 2], kinds={"int": 70, "data": 20, "bits": 4, "ref": 5, "sel": 0, "em": 1},
+                    p_class_endianness=0.5, p_move=0.05, p_move_first=0.0, p_rep=0.05, p_opt=0.03, accept=ends_in_an_odd_width_int)
     for bench in itertools.chain(driver.families(run, rng, profile, VARIANTS, nfam, instrument=(), tag="c14"),
-                                 driver.families(run, rng, overlap, VARIANTS, nfam // 3, instrument=(), tag="c14o")):
+                                 driver.families(run, rng, overlap, VARIANTS, nfam // 3, instrument=(), tag="c14o"),
+                                 driver.families(run, rng, tail_int, VARIANTS, nfam // 7, instrument=(), tag="c14t")):
+        if ends_in_an_odd_width_int(bench.fam):
+            run.count("families_ending_in_an_odd_width_int")
         fam = bench.fam
         # repeated(aligned=) is relative to the start of the data: drop such families (statement exclusion)
         if harness.has_begins_reference(fam) or harness.uses_raw_callbacks(fam):
